@@ -260,6 +260,12 @@ func (c *Client) validateVirtualChannelFundingProposal(
 		return errors.New("cannot have locked funds")
 	}
 
+	// Validate dimensions: one signature and one balance column per participant.
+	numParts := len(prop.Initial.Params.Parts)
+	if len(prop.Initial.Sigs) != numParts || prop.Initial.State.NumParts() != numParts {
+		return errors.New("signatures or balances do not match the number of participants")
+	}
+
 	// Validate signatures.
 	for i, sig := range prop.Initial.Sigs {
 		for _, part := range prop.Initial.Params.Parts[i] {
@@ -279,6 +285,11 @@ func (c *Client) validateVirtualChannelFundingProposal(
 	// Validate index map.
 	if len(prop.Initial.Params.Parts) != len(prop.IndexMap) {
 		return errors.New("index map: invalid length")
+	}
+	for _, idx := range prop.IndexMap {
+		if int(idx) >= ch.state().NumParts() {
+			return errors.New("index map: invalid entry")
+		}
 	}
 
 	// Assert not contained before
